@@ -27,12 +27,22 @@ impl EventLog {
     }
 
     pub fn append(&self, event: &Event) -> io::Result<()> {
+        #[cfg(rip_verif)]
+        rip_kernel::verif::point("log.pre", || verif_fields(event, 0));
         let mut writer = self.writer.lock().expect("event log mutex");
         let line = serde_json::to_string(event)
             .map_err(|err| io::Error::new(io::ErrorKind::InvalidData, err))?;
+        #[cfg(rip_verif)]
+        if rip_kernel::verif::fail_point("log.enter", || verif_fields(event, line.len())) {
+            return Err(io::Error::other("verif: injected append failure"));
+        }
         writer.write_all(line.as_bytes())?;
+        #[cfg(rip_verif)]
+        rip_kernel::verif::point("log.body", || verif_fields(event, line.len()));
         writer.write_all(b"\n")?;
         writer.flush()?;
+        #[cfg(rip_verif)]
+        rip_kernel::verif::point("log.flushed", || verif_fields(event, line.len()));
         Ok(())
     }
 
@@ -72,6 +82,22 @@ impl EventLog {
     }
 }
 
+#[cfg(rip_verif)]
+fn verif_fields(event: &Event, bytes: usize) -> serde_json::Value {
+    let kind = serde_json::to_value(&event.kind)
+        .ok()
+        .and_then(|v| v.get("type").and_then(|t| t.as_str()).map(str::to_string))
+        .unwrap_or_default();
+    serde_json::json!({
+        "stream": event.stream_id(),
+        "sk": event.stream_kind(),
+        "seq": event.seq,
+        "kind": kind,
+        "id": event.id,
+        "bytes": bytes,
+    })
+}
+
 pub fn write_snapshot(
     dir: impl AsRef<Path>,
     session_id: &str,
@@ -86,6 +112,10 @@ pub fn write_snapshot(
         .map_err(|err| io::Error::new(io::ErrorKind::InvalidData, err))?;
     writer.write_all(payload.as_bytes())?;
     writer.flush()?;
+    #[cfg(rip_verif)]
+    rip_kernel::verif::point("snapshot.written", || {
+        serde_json::json!({"stream": session_id, "frames": events.len()})
+    });
     Ok(path)
 }
 
